@@ -17,7 +17,8 @@ class OVF:
 
     FILE_XPATH = "ovf:References/ovf:File"
     DISK_XPATH = "ovf:DiskSection/ovf:Disk"
-    DISK_DRIVE_XPATH = 'ovf:VirtualSystem/ovf:VirtualHardwareSection/ovf:Item/[rasd:ResourceType="17"]'
+    # Virtual systems may be grouped in (nested) VirtualSystemCollection elements
+    DISK_DRIVE_XPATH = './/ovf:VirtualSystem/ovf:VirtualHardwareSection/ovf:Item/[rasd:ResourceType="17"]'
 
     def __init__(self, fh: TextIO):
         self.fh = fh
